@@ -234,7 +234,7 @@ func (c05) Case(c *core.Ctx) {
 	if r.Intn(2) == 0 {
 		mxj.XMLEscapeCharsDecoder(true)
 		checkSwitches(c, "XMLEscapeCharsDecoder(true)")
-		root := &xt.Node{Local: "r", Attrs: []xt.Attr{{Local: "a", Val: ss[0]}}}
+		root := &xt.Node{Local: "r", Attrs: []xt.Attr{{Local: "a", Val: ss[0]}, {Prefix: "ns", Local: "p", Val: ss[3]}, {Prefix: "xmlns", Local: "ns", Val: "urn:x"}}}
 		add := func(n *xt.Node) { root.Items = append(root.Items, xt.Item{Kind: xt.KElem, El: n}) }
 		e := &xt.Node{Local: "e"}
 		if ss[1] != "" {
